@@ -151,6 +151,10 @@ def theorem_names(mod):
         m = re.match(r'\s*(?:@\[[^\]]*\]\s*)?(?:protected\s+|private\s+)?theorem\s+([\w.\']+)', line)
         if m:
             names.append('.'.join(ns + [m.group(1)]))
+            continue
+        m = re.match(r'\s*alias\s+([\w.\']+)\s*:=', line)
+        if m:
+            names.append('.'.join(ns + [m.group(1)]))
     return names
 
 
